@@ -176,13 +176,13 @@ def check(chk: Check) -> None:
                         seen['%s :: `%s`' % (qn, e.text())] = (False, 'scoped names accessed through .%s' % f[2], e.line)
                     if isinstance(f, tuple) and f and f[0] == 'attr' and f[2] == 'make_scope' and f[1] == names:
                         arg = freeze(e.args)[0] if e.args else None
-                        ok = isinstance(arg, tuple) and arg and arg[0] == 'comp' and arg[1] == 'dict' and \
-                            isinstance(arg[2], tuple) and arg[2][0] == 'kv' and isinstance(arg[2][1], tuple) and arg[2][1][0] == 'attr' \
-                            and arg[2][1][2] == 'name' and om.base_field(arg[2][1][1], selft2) is not None
+                        pairs = common.scope_bindings(arg, p.events)
+                        ok = bool(pairs) and all(isinstance(k_, tuple) and k_[:1] == ('attr',) and k_[2] == 'name' and
+                                                 om.base_field(k_[1], selft2) is not None for k_, _ in pairs)
                         key = '%s :: `%s`' % (qn, norm(e.node.func) if isinstance(e.node, ast.Call) else e.text())
                         if ok:
-                            seen.setdefault(key, (True, 'binds parameters under the .name of the nodes in self.%s' % om.base_field(arg[2][1][1], selft2), e.line))
-                        elif isinstance(arg, tuple) and arg and arg[0] == 'dict' and len(arg) == 1:
+                            seen.setdefault(key, (True, 'binds parameters under the .name of the nodes in self.%s' % om.base_field(pairs[0][0][1], selft2), e.line))
+                        elif pairs is not None and not pairs:
                             seen.setdefault(key, (True, 'empty scope', e.line))
                         else:
                             seen[key] = (False, 'the pushed scope %s binds names that are not the .name of a parameter node' % show(arg), e.line)
